@@ -104,6 +104,7 @@ pub struct Shared {
     pub pool_full_while_other_ran: bool,
     pub j_full: bool,
     pub db_writes: usize,
+    pub db_lens: Vec<usize>,
     pub died_in_db: Option<(bool, bool)>,
     pub hazard: Option<String>,
     pub nsteps_total: usize,
@@ -142,6 +143,7 @@ impl Shared {
             pool_full_while_other_ran: false,
             j_full: false,
             db_writes: 0,
+            db_lens: vec![],
             died_in_db: None,
             hazard: None,
             nsteps_total: 0,
@@ -224,7 +226,12 @@ impl Exec for Ex {
         }
         // C03: only dirty steps run
         if !sh.world.dirty(&proj, &step, &sh.attr) {
-            sh.v("C03", "ran-clean-step", format!("step {} ({:?}) was started but is up to date by the manifest rule", uid, step.outs));
+            let msg = format!("step {} ({:?}) was started but is up to date by the manifest rule", uid, step.outs);
+            sh.v("C03", "ran-clean-step", msg.clone());
+            sh.v("C08", "ran-clean-step", msg.clone());
+            if step.deps != 0 {
+                sh.v("C09", "ran-clean-step", msg);
+            }
         }
         // C16 slice: output directories exist
         for o in &step.outs {
@@ -441,7 +448,7 @@ impl Observer for Obs {
         // the step that (alone) produces all of its outputs
         let reads = std::mem::take(&mut sh.dbr);
         let got: Vec<&DbRec> = reads.iter().map(|r| &r.1).collect();
-        let want: Vec<&DbRec> = sh.world.dbfile.iter().collect();
+        let want: Vec<&DbRec> = sh.world.dbfile.iter().chain(sh.dbw.iter()).collect();
         if got != want {
             let msg = format!("records read from the log differ from the records written: read {} records, {} were written; first difference at #{}", got.len(), want.len(), got.iter().zip(&want).position(|(a, b)| a != b).unwrap_or(got.len().min(want.len())));
             sh.v("C08", "log-readback", msg.clone());
